@@ -236,10 +236,29 @@ func (e *Effects) applySummary(fn *ssa.Function, s *fnState, sum *Summary, site 
 		}
 		return nil, false
 	}
+	// wValue: the value of captured variable k of the closure called here (nil sets when unknown)
+	wValue := func(base string) (strset, cellset, bool) {
+		if len(base) > 1 && base[0] == 'W' {
+			if k := atoi(base[1:]); k >= 0 && k < len(bindings) {
+				A, C := s.cellValue(bindings[k])
+				return A, C, true
+			}
+			return nil, nil, true
+		}
+		return nil, nil, false
+	}
 	substSet := func(v strset) (strset, cellset) {
 		r, c := strset{}, cellset{}
 		for root := range v {
 			ri := parseRoot(root)
+			if A, C, isW := wValue(ri.base); isW {
+				if A != nil || C != nil {
+					ar, ac := s.substFS(ri, A, C, "", nil)
+					r.addAll(ar)
+					c.addAll(ac)
+				}
+				continue
+			}
 			if a, rel := actualOf(ri.base); rel {
 				if a != nil {
 					ar, ac := s.subst(ri, a)
@@ -259,11 +278,18 @@ func (e *Effects) applySummary(fn *ssa.Function, s *fnState, sum *Summary, site 
 			v2 = via + ">" + ef.Via
 		}
 		ri := parseRoot(ef.Root)
-		if a, rel := actualOf(ri.base); rel {
-			if a == nil {
+		wA, wC, isW := wValue(ri.base)
+		if a, rel := actualOf(ri.base); rel || isW {
+			if (isW && wA == nil && wC == nil) || (!isW && a == nil) {
 				continue // FV effects of closures not created here are accounted at MakeClosure
 			}
-			ar, ac := s.substF(ri, a, ef.CT, e)
+			var ar strset
+			var ac cellset
+			if isW {
+				ar, ac = s.substFS(ri, wA, wC, ef.CT, e)
+			} else {
+				ar, ac = s.substF(ri, a, ef.CT, e)
+			}
 			vr, vc := substSet(ef.Val)
 			e.emit(fn, s, ar, ef.Loc, ef.CT, ef.Pos, ef.Fn, v2, vr, ef.ValT.sorted()...)
 			s.storeRegion(ar, ef.Loc, vr, vc)
@@ -301,6 +327,20 @@ func (e *Effects) applySummary(fn *ssa.Function, s *fnState, sum *Summary, site 
 					s.touch(rc)
 					for r, vts := range cst.ctype[rc] {
 						ri := parseRoot(r)
+						if A, C, isW := wValue(ri.base); isW {
+							if A != nil || C != nil {
+								ar, ac := s.substFS(ri, A, C, "", nil)
+								for r2 := range ar {
+									for vt := range vts {
+										s.putContent(rc, storedForm(r2), vt)
+									}
+								}
+								if s.cellContent[rc].addAll(ac) {
+									s.changed = true
+								}
+							}
+							continue
+						}
 						if a, rel := actualOf(ri.base); rel {
 							if a != nil {
 								ar, ac := s.subst(ri, a)
